@@ -67,7 +67,84 @@ func (g *TxGen) sign(signer signature.Signer, addr staking.Address, method trans
 func (g *TxGen) GenRegistry(t *rapid.T) *RegTx {
 	w := g.W
 	nodes := w.allNodes()
-	switch kind := rapid.SampledFrom([]string{"rotate", "rotate", "rotate", "badnode", "badnode", "entity", "entity", "newnode", "deregister", "runtime"}).Draw(t, "regKind"); kind {
+	switch kind := rapid.SampledFrom([]string{"rotate", "rotate", "rotate", "badnode", "badnode", "entity", "entity", "newnode", "deregister", "runtime", "migrate", "migrate"}).Draw(t, "regKind"); kind {
+	case "migrate":
+		// a node (registered, expired or already removed) registers naming ANOTHER entity as its owner; preferably one that
+		// lists its ID. Only a node that is not in the registry any more may do that.
+		var cands []struct {
+			E *EntityKeys
+			N *NodeKeys
+		}
+		for _, n := range nodes {
+			if !(n.E == w.Entities[0] && n.N == n.E.Nodes[0]) {
+				cands = append(cands, n)
+			}
+		}
+		if len(cands) == 0 || len(w.Entities) < 2 {
+			ek := w.Entities[0]
+			d := g.sign(ek.Signer, ek.Address(), registry.MethodProveFreshness, [32]byte{2}, ek.Name)
+			d.Note = "prove freshness"
+			return &RegTx{TxDesc: d}
+		}
+		pick := cands[rapid.IntRange(0, len(cands)-1).Draw(t, "migNode")]
+		var listing, others []*EntityKeys
+		for _, e := range w.Entities {
+			if e == pick.E {
+				continue
+			}
+			if e.Listed != nil && e.Listed[pick.N.ID.Public()] {
+				listing = append(listing, e)
+			} else {
+				others = append(others, e)
+			}
+		}
+		var to *EntityKeys
+		if len(listing) > 0 && (len(others) == 0 || rapid.IntRange(0, 4).Draw(t, "migListed") > 0) {
+			to = listing[rapid.IntRange(0, len(listing)-1).Draw(t, "migTo")]
+		} else {
+			to = others[rapid.IntRange(0, len(others)-1).Draw(t, "migToOther")]
+		}
+		unauthorized := ""
+		listedNow := false
+		if ent, err := g.V.Reg.Entity(g.V.ctx, to.Signer.Public()); err == nil && ent != nil {
+			for _, id := range ent.Nodes {
+				if id.Equal(pick.N.ID.Public()) {
+					listedNow = true
+				}
+			}
+		}
+		cur, err := g.V.Reg.Node(g.V.ctx, pick.N.ID.Public())
+		switch {
+		case err == nil && cur != nil && uint64(cur.Expiration)+w.Spec.DebondingIv >= uint64(g.V.Epoch)+1:
+			// (it stays in the registry even if this block starts the next epoch)
+			unauthorized = "node that is still in the registry (active or expired) names another owning entity"
+		case !listedNow && !g.foreignListed[pick.N.ID.Public()]:
+			unauthorized = "node claims an entity that does not list it"
+		}
+		exp := g.V.Epoch + beacon.EpochTime(rapid.IntRange(1, int(w.Spec.MaxNodeExp)).Draw(t, "exp"))
+		nd := w.NodeDescriptor(pick.E, pick.N, exp, 0, false)
+		nd.EntityID = to.Signer.Public()
+		sn, err := node.MultiSignNode(pick.N.Signers(), registry.RegisterNodeSignatureContext, nd)
+		if err != nil {
+			panic(err)
+		}
+		d := g.sign(pick.N.ID, staking.NewAddress(pick.N.ID.Public()), registry.MethodRegisterNode, sn, pick.N.Name)
+		d.Note = fmt.Sprintf("migrate node %s from %s to %s", pick.N.Name, pick.E.Name, to.Name)
+		d.Mutated = unauthorized
+		rt := &RegTx{TxDesc: d, Unauthorized: unauthorized}
+		{
+			from, nk := pick.E, pick.N
+			rt.OnSuccess = func() {
+				for i, x := range from.Nodes {
+					if x == nk {
+						from.Nodes = append(append([]*NodeKeys{}, from.Nodes[:i]...), from.Nodes[i+1:]...)
+						break
+					}
+				}
+				to.Nodes = append(to.Nodes, nk)
+			}
+		}
+		return rt
 	case "rotate", "badnode":
 		pick := nodes[rapid.IntRange(0, len(nodes)-1).Draw(t, "node")]
 		ek, nk := pick.E, pick.N
@@ -180,6 +257,18 @@ func (g *TxGen) GenRegistry(t *rapid.T) *RegTx {
 				added = nil
 			} else {
 				ent.Nodes = append(ent.Nodes, added.ID.Public())
+			}
+		}
+		if rapid.IntRange(0, 2).Draw(t, "listForeign") == 0 {
+			// list a node that currently belongs to another entity (anyone may list any node ID; the node's own
+			// signature decides)
+			o := nodes[rapid.IntRange(0, len(nodes)-1).Draw(t, "foreignNode")]
+			if o.E != ek && len(ent.Nodes) < 5 {
+				ent.Nodes = append(ent.Nodes, o.N.ID.Public())
+				if g.foreignListed == nil {
+					g.foreignListed = map[signature.PublicKey]bool{}
+				}
+				g.foreignListed[o.N.ID.Public()] = true
 			}
 		}
 		descSigner, txSigner, txAddr, txName := ek.Signer, ek.Signer, ek.Address(), ek.Name
